@@ -8,6 +8,7 @@ import IsoDT.Model.TimePoint
 import IsoDT.Model.Duration
 import IsoDT.Model.LocalTZ
 import IsoDT.Model.Recurrence
+import IsoDT.Model.Truncated
 
 open IsoDT IsoDT.Model
 open IsoDT.Spec (Date TZ TP)
@@ -114,6 +115,20 @@ def showODur : Option Dur → String
 
 def showInts (l : List Int) : String := " ".intercalate (l.map toString)
 
+def optInt? (s : String) : Option (Option Int) := if s == "_" then some none else s.toInt?.map some
+
+/-- `week dow dom doy hh mi ss tzh tzm`, each an integer or `_`. -/
+def parseTrunc (toks : List String) : Option Trunc :=
+  match toks.mapM optInt? with
+  | some [week, dow, dom, doy, hh, mi, ss, tzh, tzm] =>
+    let tz : Option TZ := match tzh, tzm with
+      | some h, some x => some ⟨h, x⟩
+      | some h, none => some ⟨h, 0⟩
+      | none, some x => some ⟨0, x⟩
+      | none, none => none
+    some ⟨week, dow, dom, doy, hh, mi, ss, tz⟩
+  | _ => none
+
 def tpOp (op : String) (m : Mode) (rest : List String) : String :=
   match parseTP rest with
   | none => "bad-op"
@@ -128,6 +143,9 @@ def tpOp (op : String) (m : Mode) (rest : List String) : String :=
     | "addmonths" => match ints? rest with
       | some [n] => showOTP (addMonths m p n)
       | _ => "bad-op"
+    | "addtrunc" => match parseTrunc rest with
+      | some t => showOTP (addTruncTP m p t)
+      | none => "bad-op"
     | "tick" => showOTP (tickOver m p)
     | "tz" => match ints? rest with
       | some [h, mi] => showOTP (toTimeZone m p ⟨h, mi⟩)
@@ -285,7 +303,7 @@ def recOp (op : String) (m : Mode) (rest : List String) : String :=
 def recOps : List String := ["rmk", "riter", "ritem", "rvalid", "rnext", "rprev", "rfirst", "rshift", "req",
   "rhasheq"]
 
-def tpOps : List String := ["add", "sub", "addmonths", "tick", "tz", "hash", "hasheq", "cmp", "subtp"]
+def tpOps : List String := ["add", "sub", "addmonths", "tick", "tz", "hash", "hasheq", "cmp", "subtp", "addtrunc"]
 
 def dispatch (toks : List String) : String :=
   match toks with
